@@ -487,6 +487,8 @@ def gen_fn_case(rng, tier, idx, n=None, exhaustive=False):
             q.pop("alts", None)
             if q["default"] is not None:
                 q["default"] = "i7"
+        idp = [i for i, qq in enumerate(params)
+               if is_pool(qq.get("default")) and qq["default"].split(".", 1)[1] in IDENTITY_KINDS]
     nret = rng.choice([0, 1, 1, 1, 2, 2, 3, 4])
     rets = []  # [spec, source text, pre-statement, hint]
     used = set()
@@ -2219,7 +2221,8 @@ def oracle(case, r):
         if any(o in ("cv", "i0") for c in [case, *(case.get("chain") or [])] for o in (c.get("opts") or {}).values()):
             sfacts["has_pseudo"] = True  # a ClassVar member / an init=False field somewhere in the hierarchy
     if kind == "dict" and case.get("prior_spec") is not None:
-        sfacts = {"prior_same_hash": True}
+        # (do the two specifications differ only between defaults that are `==` and of one type -- signed zeros?)
+        sfacts = {"prior_same_hash": True, "same_eq_class": _eq_key(case["prior_spec"]) == _eq_key(case["spec"])}
     if kind == "fn":
         if case.get("nonascii"):
             sfacts["nonascii"] = True
